@@ -205,7 +205,9 @@ PROPS["C11"] = {
 PROPS["C05"]["also"] = ["C05F"]      # lexical parser half + fold half
 PROPS["C12"]["also"] = ["C05F"]      # C12_fold_wf lives in Props/C05F.v
 PROPS["C14"]["also"] = ["C05F"]      # C14_fold_category lives in Props/C05F.v
-PROPS["C10"]["also"] = ["C03"]       # C10_fold_* (desugaring at the fold level) live in Props/C03.v
+# C10_fold_* (desugaring at the fold level) live in Props/C03.v: that file and C03's stream only
+PROPS["C10F"] = dict(PROPS["C03"], props=["Props/C03.v"], stream="C03")
+PROPS["C10"]["also"] = ["C10F"]
 
 PROPS["C16"] = {
     "props": ["Props/C16.v"],
